@@ -112,3 +112,25 @@ pub fn start_watchdog(secs: u64) {
 pub fn next_case() {
     CASE_NO.fetch_add(1, std::sync::atomic::Ordering::Relaxed);
 }
+
+/// decode with the real codec, canonical value text, remainder, re-encoding (shared by codec.rs and
+/// the generated derive_gen programs)
+pub fn run_struct_plain<T>(bs: &[u8]) -> String
+where
+    T: zvt_builder::ZvtSerializer + std::fmt::Debug,
+    zvt_builder::encoding::Default: zvt_builder::encoding::Encoding<T>,
+{
+    let bs = bs.to_vec();
+    guarded(move || match T::zvt_deserialize(&bs) {
+        Ok((v, rem)) => {
+            let val = debugparse::canon(&format!("{:?}", v));
+            let rem = hex(rem);
+            let re = std::panic::catch_unwind(std::panic::AssertUnwindSafe(|| v.zvt_serialize()));
+            match re {
+                Ok(b) => format!("Ok {} rem={} re={}", val, rem, hex(&b)),
+                Err(_) => format!("Ok {} rem={} re=Panic", val, rem),
+            }
+        }
+        Err(e) => zerr(&e),
+    })
+}
